@@ -116,6 +116,7 @@ Section Exec.
     | HDecl x => HNext (upd s x None) tr
     | HAssign x e => match heval s e with Some v => HNext (upd s x (Some v)) tr | None => HFail FStuck end
     | HClosure x f e => match heval s e with Some v => HNext (upd s x (Some (VClo f v))) tr | None => HFail FStuck end
+    | HStruct x es => match hevals s es with Some vs => HNext (upd s x (Some (VStruct vs))) tr | None => HFail FStuck end
     | HUnreachable => HFail FStuck
     end.
 
